@@ -16,7 +16,7 @@ ASSUMPTIONS = R.ASSUMPTIONS + [
     'termination is false (known finding F11: a stranded sequence), those runs are judged by the oracle on the '
     'implementation events',
 ]
-EXTRA_THEOREM_MODULES = ['DcVerif.Lemmas.Ring', 'DcVerif.Lemmas.FairTermination', 'DcVerif.Lemmas.RingLive',
+EXTRA_THEOREM_MODULES = ['DcVerif.Props.C13Gen', 'DcVerif.Lemmas.Ring', 'DcVerif.Lemmas.FairTermination', 'DcVerif.Lemmas.RingLive',
                          'DcVerif.Lemmas.RingMultiLiveC', 'DcVerif.Lemmas.RingMultiLiveInv', 'DcVerif.Lemmas.RingMultiLive',
                          'DcVerif.Lemmas.RingMultiLiveS', 'DcVerif.Lemmas.RingMultiLiveB']
 classify, nontrivial = R.classify, R.nontrivial
